@@ -28,9 +28,9 @@ Print Assumptions C06_restart_of_wellformed_world.
 (* C06 on the path model. For every run of the model from a fresh directory (any interleaving of the raft loop,
    the apply loop, the snapshot goroutines, the backup loop and the purge loops at sub-step granularity; any
    Readys the raft library may hand out; any number of earlier process deaths and restarts, also deaths during a
-   restart) that respects the schedule hypothesis (fewer snapshot goroutines between "snap file written" and "WAL
-   marker written" than snap files the purge keeps; the code keeps at least two, so one such goroutine is always
-   fine), for every instant of the process death (every reachable state is one) and every crash
+   restart) that respects the schedule hypothesis (whenever the snap directory purge decides to remove a file, fewer
+   snapshot goroutines are between "snap file written" and "WAL marker written" than snap files it keeps; the code
+   keeps at least two, so one such goroutine is always fine), for every instant of the process death (every reachable state is one) and every crash
    image of that state under process death (any part of the buffered WAL records lost, any prefix of a Save in
    flight written): the restart procedure (choose the newest snapshot that the WAL records and whose file exists,
    restore the engine from its checkpoint, read the WAL back from it, replay) succeeds, and the state it serves is
